@@ -1,6 +1,7 @@
 pub mod c01;
 pub mod c02;
 pub mod c03;
+pub mod c04;
 pub mod c05;
 pub mod c06;
 pub mod c07;
@@ -26,6 +27,7 @@ pub fn dispatch(prop: &str) -> Option<(RunFn, ReplayFn)> {
         "C01" => (c01::run, c01::replay),
         "C02" => (c02::run, c02::replay),
         "C03" => (c03::run, c03::replay),
+        "C04" => (c04::run, c04::replay),
         "C05" => (c05::run, c05::replay),
         "C06" => (c06::run, c06::replay),
         "C07" => (c07::run, c07::replay),
